@@ -53,6 +53,7 @@ int __real_fe_end(fe_t *fe, mfcc_t **buf, int nframes);
 int16 const *__real_acmod_score(acmod_t *acmod, int *inout_frame_idx);
 
 static int ovf_before_end = -1;
+static uint64_t utt_sen_hash;
 
 static void fe_note(int lim, int nvec, size_t left)
 {
@@ -127,7 +128,23 @@ int16 const *__wrap_acmod_score(acmod_t *acmod, int *inout_frame_idx)
     if (sclen + 64 < sizeof(sclog))
         sclen += sprintf(sclog + sclen, "%s%c%d:%d:%016llx", sclen ? "," : "", in_align ? 'a' : 's',
                          frame_idx, idx, (unsigned long long)h);
-    return __real_acmod_score(acmod, inout_frame_idx);
+    {
+        /* digest of the senone scores every first-pass step receives (active senones only): the scorer must give the
+         * first pass the same scores whatever else has been asked of it in between */
+        int16 const *scr = __real_acmod_score(acmod, inout_frame_idx);
+        if (!in_align && scr) {
+            uint64_t sh = 1469598103934665603ULL;
+            int i, sen = 0;
+            for (i = 0; i < acmod->n_senone_active; i++) {
+                sen += acmod->senone_active[i];
+                sh ^= (uint64_t)(uint16_t)scr[sen] + ((uint64_t)sen << 16);
+                sh *= 1099511628211ULL;
+            }
+            utt_sen_hash ^= sh + (uint64_t)frame_idx;
+            utt_sen_hash *= 1099511628211ULL;
+        }
+        return scr;
+    }
 }
 
 /* ---------------------------------------------------------------- state */
@@ -234,7 +251,7 @@ static void print_result(void)
         printf(" feats=%d:%016llx", nbuf, (unsigned long long)fh);
     } else
         printf(" feats=wrapped");
-    printf(" cmnframes=%d", (int)a->fcb->cmn_struct->nframe);
+    printf(" cmnframes=%d senscr=%016llx", (int)a->fcb->cmn_struct->nframe, (unsigned long long)utt_sen_hash);
     printf(" alsc=%s", sclen ? sclog : "-");
     print_st();
 }
@@ -317,6 +334,7 @@ int main(void)
             log_reset();
             if (strcmp(w[3], "-"))
                 decoder_set_cmn(dec, w[3]);
+            utt_sen_hash = 1469598103934665603ULL;
             rv = decoder_start_utt(dec);
             printf("utt rv=%d cmnframes=%d", rv, (int)dec->acmod->fcb->cmn_struct->nframe);
             print_st();
